@@ -183,6 +183,11 @@ pub fn apply(fx: &mut Fx, t: &mut Track, op: &H) -> Value {
                 let id = fx.side_effect(&thread, &m, &t.last_sess, n)?;
                 Ok(json!({"id": id}))
             }
+            H::Cursor(9) => {
+                // a cursor that carries neither endpoint nor model (a run on the provider's defaults)
+                let id = store.verif_append_provider_cursor_updated(&thread, "openresponses", None, None, Some(json!({"previous_response_id": format!("r{n}")})), "set", None)?;
+                Ok(json!({"id": id}))
+            }
             H::Cursor(k) => {
                 let id = store.verif_append_provider_cursor_updated(&thread, "openresponses", Some("http://e".into()), Some(format!("model{k}")), Some(json!({"previous_response_id": format!("r{n}")})), "set", None)?;
                 Ok(json!({"id": id}))
